@@ -95,7 +95,7 @@ def iterfold(h):
             a = getattr(red, 'last_args', [None, None])
             vals = a[1] if len(a) > 1 else None
             ok = z3.BoolVal(False)
-            if isinstance(vals, Seq) and a[0] is f:
+            if isinstance(vals, Seq) and a[0] is f and vindex:      # (no value index resolved -> the obligation fails, not the checker)
                 q = smt.fresh_int('q')
                 vidx = smt.ival(as_v(vindex[0]))
                 o = out_row(dout, 0)
